@@ -887,4 +887,20 @@ theorem fitStep_coh_partial {S : Schema} (hts : TextStableP S) (hdet : DetS S) (
         subst this
         exact ⟨g, Nat.le_refl _, hcoh⟩
 
+/-! ### groundwork for the missing case (`open_end_count > 0`) -/
+
+/-- `fill_before(after)` (not to the end) answers the empty filling when `after` matches as it is:
+    `close_node_start` puts nothing in front of the children of a node whose children are a matchable
+    beginning of its content — the node `place_nodes` pushes the open end of -/
+theorem fillBeforeTypes_nil_of_run (S : Schema) (d : Dfa) (q : Nat) (after : List TypeId) (r : Nat)
+    (h : d.run q after = some r) : fillBeforeTypes S d q after false = some [] := by
+  unfold fillBeforeTypes
+  simp [fillSearchO, h]
+
+theorem fillOpt_nil_of_run (S : Schema) (d : Dfa) (q : Nat) (after : List TypeId) (r : Nat)
+    (h : d.run q after = some r) : fillOpt S d q after false = .ok (some []) := by
+  unfold fillOpt fillBeforeNodes
+  rw [fillBeforeTypes_nil_of_run S d q after r h]
+  rfl
+
 end PM
